@@ -569,6 +569,40 @@ func Invalid(r *rand.Rand) Case {
 	case 7:
 		class = "unknown-name"
 		base[k] = []string{"FOO", "JANU", "MONDAY", "J", "SU", "x", "1x", "SAT-", "?,1", "*,1", "1,,2", ",", "1-", "-", "/"}[r.Intn(15)]
+		if r.Intn(2) == 0 {
+			// a name of the OTHER glossary: weekday names are unknown values in the month field, month names in the day-of-week field,
+			// and both in every field that has no names at all — alone and inside lists, ranges, steps and the special forms
+			days := []string{"SUN", "MON", "TUE", "WED", "THU", "FRI", "SAT"}
+			months := []string{"JAN", "FEB", "MAR", "APR", "MAY", "JUN", "JUL", "AUG", "SEP", "OCT", "NOV", "DEC"}
+			var nm string
+			switch k {
+			case 4:
+				nm = days[r.Intn(7)]
+			case 5:
+				nm = months[r.Intn(12)]
+			default:
+				nm = append(days, months...)[r.Intn(19)]
+			}
+			if r.Intn(3) == 0 {
+				nm = strings.ToLower(nm)
+			}
+			forms := []string{"%s", "%s,LO", "LO,%s", "%s-HI", "LO-%s", "%s/2", "LO-HI/%s", "%s-%s"}
+			if k == 5 {
+				setDay(5)
+				forms = append(forms, "%s#2", "%sL", "%s#1", "2#%s")
+			}
+			if k == 3 {
+				setDay(3)
+				forms = append(forms, "%sW", "L-%s")
+			}
+			f := forms[r.Intn(len(forms))]
+			f = strings.ReplaceAll(strings.ReplaceAll(f, "LO", fmt.Sprint(fi.lo)), "HI", fmt.Sprint(fi.hi))
+			if strings.Count(f, "%s") == 2 {
+				base[k] = fmt.Sprintf(f, nm, nm)
+			} else {
+				base[k] = fmt.Sprintf(f, nm)
+			}
+		}
 	case 8:
 		class = "both-day-fields"
 		base[3] = []string{"1", "15", "L", "1-5", "LW", "3W", "*/2"}[r.Intn(7)]
